@@ -7,7 +7,6 @@ import (
 
 	"github.com/ipld/go-ipld-prime"
 	"github.com/ipld/go-ipld-prime/datamodel"
-	"github.com/ipld/go-ipld-prime/must"
 )
 
 // Match determines if the IPLD node satisfies the policy.
@@ -80,7 +79,7 @@ func matchStatement(cur Statement, node ipld.Node) (_ matchResult, leafMost Stat
 			if res == nil { // optional selector didn't match
 				return matchResultOptionalNoData, nil
 			}
-			return boolToRes(datamodel.DeepEqual(s.value, res))
+			return boolToRes(deepEqual(s.value, res))
 		}
 	case KindGreaterThan:
 		if s, ok := cur.(equality); ok {
@@ -272,6 +271,18 @@ func (c *combination) result() (matchResult, Statement) {
 	return matchResultTrue, nil
 }
 
+// deepEqual is datamodel.DeepEqual, except that nodes which cannot produce
+// their value (an unsigned integer beyond int64, as DAG-CBOR can carry) are
+// unequal to everything instead of causing a panic.
+func deepEqual(x, y ipld.Node) (equal bool) {
+	defer func() {
+		if r := recover(); r != nil {
+			equal = false
+		}
+	}()
+	return datamodel.DeepEqual(x, y)
+}
+
 // isOrdered compares two IPLD nodes and returns true if they satisfy the given ordering function.
 // It supports comparison of integers and floats, returning false for:
 //   - Nodes of different or unsupported kinds
@@ -285,8 +296,15 @@ func (c *combination) result() (matchResult, Statement) {
 //   - For "<=" it returns true when order is -1 or 0
 func isOrdered(expected ipld.Node, actual ipld.Node, satisfies func(order int) bool) bool {
 	if expected.Kind() == ipld.Kind_Int && actual.Kind() == ipld.Kind_Int {
-		a := must.Int(actual)
-		b := must.Int(expected)
+		// AsInt fails for unsigned values beyond int64 (as DAG-CBOR can carry)
+		a, err := actual.AsInt()
+		if err != nil {
+			return false
+		}
+		b, err := expected.AsInt()
+		if err != nil {
+			return false
+		}
 
 		return satisfies(cmp.Compare(a, b))
 	}
